@@ -584,7 +584,7 @@ def bundle_cases(rng, tier, quick, thorough, special=None):
             else:
                 cases.append((e, p, v))
     # large inputs: wide sums and products (also at a root of one factor), towers of odd roots, long chains
-    for e, p in gen.large_cases(rng, max(10, n // 40), max_arity=17):
+    for e, p in gen.large_cases(rng, max(10, n // 40), max_arity=17, max_chain=30):
         ids = sx.var_ids(e)
         cases.append((e, p, rng.choice(ids) if ids else 2))
     # always: products of 11-17 linear factors at a root of one factor, and towers of odd roots whose indices multiply
@@ -857,6 +857,8 @@ def object_equalities(rep, cases):
     b = Batch()
     idxs = []
     for e, p, v in cases:
+        if sx.size(e) > 60:
+            continue          # four symbolic differentiations of a large tree: minutes, and nothing about equality
         idxs.append(b.add('OBJEQ %d %s %s' % (v, sx.point_sx(p), sx.to_sx(e))))
     b.run(model=False)
     for i in idxs:
